@@ -42,6 +42,7 @@ class Factory:
         os.makedirs(scratch, exist_ok=True)
         self.cache = {}
         self.files = {}
+        self.replaced = []
 
     def path(self, data: bytes) -> str:
         h = hashlib.blake2b(data, digest_size=10).hexdigest()
@@ -53,11 +54,37 @@ class Factory:
             self.files[h] = p
         return p
 
-    def build(self, family: str, revision: str, spec: str) -> bytes:
-        key = (spec,) if spec.split(":")[0] in ("raw", "fcb", "hab", "sb21", "sb31", "xmcd") else (family, revision, spec)
+    def build(self, family: str, revision: str, spec: str, check=None) -> bytes:
+        """`check` = (segment class name, memory type label) for application containers: the container must be accepted by
+        the segment's own parser when it stands alone (the `Delimit` assumption, validated where the payload is made);
+        a variant that is not (e.g. a degenerate application the exporter did not refuse) is replaced by the canonical one."""
+        key = (spec,) if spec.split(":")[0] in ("raw", "fcb", "sb21", "sb31", "xmcd") else (family, revision, spec)
         if key not in self.cache:
-            self.cache[key] = self._build(family, revision, spec)
+            try:
+                data = self._build(family, revision, spec)
+                if check is not None and not self.standalone_ok(family, revision, check, data):
+                    raise ValueError("the segment parser does not take the container back")
+            except Exception:  # noqa: BLE001
+                fb = CANONICAL.get(spec.split(":")[0])
+                if check is None or fb is None or fb == spec:
+                    raise
+                data = self.build(family, revision, fb, check)
+                self.replaced.append(f"{family}/{revision}: {spec} -> {fb}")
+            self.cache[key] = data
         return self.cache[key]
+
+    def standalone_ok(self, family, revision, check, data) -> bool:
+        from spsdk.image.bootable_image import segments as S
+        from spsdk.image.mem_type import MemoryType
+        seg = getattr(S, check[0])(0, family, MemoryType.from_label(check[1]), revision)
+        try:
+            seg.parse_binary(data)
+            if seg.export() != data or len(seg) != len(data) or seg.find_segment_offset(data) != 0:
+                return False
+            seg.image_info().export()
+            return not seg.verify().has_errors
+        except Exception:  # noqa: BLE001
+            return False
 
     def _build(self, family, revision, spec):
         p = spec.split(":")
@@ -113,7 +140,9 @@ class Factory:
             try:
                 m = get_mbi_class(cfg)()
                 m.load_from_config(cfg)
-                return m.export()
+                data = m.export()
+                m.parse(family, data).export()   # an application the family's image format cannot hold does not re-export
+                return data
             except Exception as exc:  # noqa: BLE001 - try the next application source
                 last = exc
         raise last
@@ -158,6 +187,9 @@ def _first_enum(sch, key):
     rec(sch)
     return out[0]
 
+
+# canonical application containers (used when a size variant is not a valid container of the family)
+CANONICAL = {"mbi": "mbi:crc:320", "hab": "hab:4096:8192:300", "ahab": "ahab:nor:300", "sb21": "sb21:100", "sb31": "sb31:77"}
 
 XMCD_FILES = {
     "rt118x": ["mimxrt1166/flexspi_ram_simplified_0.bin", "mimxrt1166/flexspi_ram_simplified_1.bin", "mimxrt1166/semc_sdram_simplified.bin",
@@ -350,12 +382,18 @@ def run_case(T, F, case, rowinfo, full_cache):
         if spec.startswith("iv:"):
             cfg[kd["cfg_key"]] = int(spec[3:])
             continue
+        is_app = kd["parser"] in APP_PARSERS
         try:
-            data = F.build(fam, rev, spec)
-        except Exception as exc:  # noqa: BLE001 - a payload generator of the harness failed: the case cannot be built
+            data = F.build(fam, rev, spec, (kd["cls"], mt) if is_app else None)
+        except Exception as exc:  # noqa: BLE001
             res["cls"] = "payload-unavailable"
-            res["nontrivial"] = False
-            res["skip"] = f"{spec}: {type(exc).__name__}: {str(exc)[:120]}"
+            if is_app:
+                # neither the requested nor the canonical container of the family's kind survives its own parser
+                fail(f"no {kd['label']} container of the family can be produced and taken back by the segment's own parser",
+                     f"{spec}: {type(exc).__name__}: {str(exc)[:160]}")
+            else:
+                res["nontrivial"] = False
+                res["skip"] = f"{spec}: {type(exc).__name__}: {str(exc)[:120]}"
             return res
         payload[kd["label"]] = data
         cfg[kd["cfg_key"]] = F.path(data)
@@ -524,6 +562,8 @@ def _worker(task):
             r["fcb"] = rowinfo["fcb_supported"]
             out.append(r)
         full_cache.clear()
+    if out and F.replaced:
+        out[0]["replaced"] = F.replaced
     return out
 
 
@@ -547,6 +587,10 @@ def feed(ck, s, drv, T, results):
         for r in fam_res:
             case = r["case"]
             s.note(case, nontrivial=r.get("nontrivial", True), cls=r["cls"])
+            if r.get("replaced"):
+                rep = ck.extra.setdefault("container_variants_replaced_by_canonical", {"count": 0, "examples": []})
+                rep["count"] += len(r["replaced"])
+                rep["examples"] = (rep["examples"] + r["replaced"])[:12]
             if r.get("skip"):
                 ck.extra.setdefault("payload_unavailable", []).append(r["skip"])
                 continue
